@@ -37,15 +37,18 @@ where
     let thorough = args.get("tier", "quick") == "thorough";
     let mut rng = Rng::new(seed ^ 0x0707);
     let mut out = TraceOut::new(&dir, &format!("conc-{}", F::KIND), 1200);
-    let runs = if thorough { 120 } else { 16 };
+    let runs = if thorough { 200 } else { 30 };
     let mut total_ops = 0u64;
 
     for run in 0..runs {
         let n = 4 + rng.below(4) as u32; // 4..7 variables
         let workers = [2u32, 4, 8, 16][rng.below(4)];
         let app_threads = 2 + rng.below(3); // 2..4
-        let ops_per_thread = if thorough { 150 } else { 90 };
-        let cache = [1usize, 16, 1024][rng.below(3)];
+        let ops_per_thread = if thorough { 300 } else { 160 };
+        let cache = [1usize, 16, 1024, 1 << 16][rng.below(4)];
+        // hook (feature oxidd_verif): random yields/sleeps around the unique
+        // table, the collector's level loop and the apply cache
+        oxidd_core::util::verif::PERTURB.store([0u32, 3, 8][run % 3], std::sync::atomic::Ordering::Relaxed);
         let mut s: Session<F> = Session::new(&mut out, 1 << 16, cache, workers);
         s.mref
             .with_manager_shared(|m| F::set_split_depth(m, Some([0u32, 1, 3, 8][run % 4])));
@@ -213,7 +216,10 @@ where
                 sc.spawn(move || {
                     let mut evs: Vec<(u64, Value)> = Vec::new();
                     while !stop.load(SeqCst) {
-                        std::thread::sleep(std::time::Duration::from_micros(50 + grng.below(400) as u64));
+                        // mostly back to back, sometimes a pause
+                        if grng.chance(1, 4) {
+                            std::thread::sleep(std::time::Duration::from_micros(50 + grng.below(400) as u64));
+                        }
                         let ret = mref.with_manager_shared(|m| m.gc());
                         let _t = table.lock().unwrap();
                         evs.push((stamp.fetch_add(1, SeqCst), json!({"ev":"cgc","ret":ret})));
@@ -248,6 +254,7 @@ where
         s.gc();
         s.snap();
     }
+    oxidd_core::util::verif::PERTURB.store(0, std::sync::atomic::Ordering::Relaxed);
     out.finish();
     write_summary(&dir, &format!("conc-{}", F::KIND), &out, json!({"rows":total_ops,"nontrivial":total_ops}));
 }
